@@ -310,7 +310,16 @@ fn adversarial(rng: &mut StdRng, me: u16, sent: &Message<'static>) -> Reply {
         6 => Reply::Msg(Message::Hello(a)),
         7 => Reply::Msg(Message::SendData(flipdot_core::Offset(rng.r#gen()), Data::try_new(vec![rng.r#gen(); rng.gen_range(0..4)]).unwrap())),
         8 => Reply::Msg(Message::DataChunksSent(flipdot_core::ChunkCount(rng.r#gen()))),
-        9 => Reply::Msg(Message::Unknown(Frame::new(a, MsgType(rng.gen_range(7..=255)), Data::try_new(vec![rng.r#gen(), rng.r#gen()]).unwrap()))),
+        9 => match rng.gen_range(0..3) {
+            // an Unknown wrapper: around a frame of an unassigned type, around a state report with an unlisted code, or around the
+            // very bytes of a report / acknowledgement that would be welcome (a bus may hand over any frame this way)
+            0 => Reply::Msg(Message::Unknown(Frame::new(a, MsgType(rng.gen_range(7..=255)), Data::try_new(vec![rng.r#gen(), rng.r#gen()]).unwrap()))),
+            1 => Reply::Msg(Message::Unknown(Frame::new(a, MsgType(4), Data::try_new(vec![[0x0Eu8, 0x00, 0x14, 0xFF][rng.gen_range(0..4)]]).unwrap()))),
+            _ => {
+                let inner: Message<'static> = if rng.gen_bool(0.6) { Message::ReportState(a, j::STATES[rng.gen_range(0..13)]) } else { Message::AckOperation(a, j::OPS[rng.gen_range(0..6)]) };
+                Reply::Msg(Message::Unknown(Frame::from(inner)))
+            }
+        },
         10 => Reply::Msg(Message::Goodbye(a)),
         _ => Reply::Msg(Message::RequestOperation(a, j::OPS[rng.gen_range(0..6)])),
     }
@@ -442,6 +451,22 @@ pub fn record_transfers(a: &Args, out: &mut TraceOut, heavy: bool) -> Value {
         one(out, "send_pages", addrs[k % 4], ALL_TYPES[k % 11], vec![small.clone(), pg.clone()], failures, 0);
         one(out, "send_pages", addrs[(k + 1) % 4], ALL_TYPES[(k + 3) % 11], vec![pg, small], 0, 0);
     }
+    // a single page longer than 65 536 bytes (the 16-bit offset wraps inside the item)
+    {
+        let long = Page::new(PageId(7), 4096, 128); // 65 552 bytes, 4097 chunks
+        one(out, "send_pages", 0x0203, ALL_TYPES[4], vec![long.clone()], 0, 0);
+        one(out, "send_pages", 3, ALL_TYPES[7], vec![Page::new(PageId(1), 12, 8), long, Page::new(PageId(2), 12, 8)], 1, 0);
+    }
+    // zero-copy pages that lie back to back in one buffer (borrowed pages: an item boundary that is not a memory boundary)
+    for (w, h, count) in [(28u32, 8u32, 3usize), (30, 10, 2), (12, 8, 5)] {
+        let one_len = Page::new(PageId(0), w, h).as_bytes().len();
+        let bytes: Vec<u8> = (0..one_len * count).map(|i| if i % one_len == 0 { (i / one_len) as u8 } else { (i * 13) as u8 }).collect();
+        let buf: &'static [u8] = Box::leak(bytes.into_boxed_slice());
+        let pages: Vec<Page<'static>> = (0..count).filter_map(|k| Page::from_bytes(w, h, &buf[k * one_len..(k + 1) * one_len]).ok()).collect();
+        one(out, "send_pages", addrs[count % 4], ALL_TYPES[count % 11], pages.clone(), (count % 2) as u32, 0);
+        // and in the other order (still adjacent, descending addresses)
+        one(out, "send_pages", addrs[(count + 1) % 4], ALL_TYPES[(count + 2) % 11], pages.into_iter().rev().collect(), 0, 0);
+    }
     // long lists: more than 256 pages (cheap: one chunk each)
     {
         let many: Vec<Page<'static>> = (0..300).map(|i| { let mut b = vec![0xFFu8; 16]; b[0] = i as u8; b[5] = (i >> 8) as u8; page_of(&b) }).collect();
@@ -453,6 +478,9 @@ pub fn record_transfers(a: &Args, out: &mut TraceOut, heavy: bool) -> Value {
         one(out, "send_pages", 0x0101, ALL_TYPES[5], six, 2, 0);
         let nine: Vec<Page<'static>> = (0..9).map(|i| Page::new(PageId(i as u8), 65532, 1)).collect();
         one(out, "send_pages", 0x0102, ALL_TYPES[6], nine, 1, 0);
+        // more than 21 845 chunks per attempt with the sign failing every attempt (3 x the frames of an attempt passes 2^16)
+        let six: Vec<Page<'static>> = (0..6).map(|i| Page::new(PageId(i as u8), 65532, 1)).collect();
+        one(out, "send_pages", 0x0103, ALL_TYPES[8], six, 5, 0);
         let big = Page::new(PageId(1), 65532, 1);
         let two = Page::new(PageId(2), 28, 8);
         let three = Page::new(PageId(3), 44, 8);
@@ -587,6 +615,11 @@ pub fn record_conclusions(a: &Args, out: &mut TraceOut) -> Value {
         finals.push(Reply::Msg(Message::ReportState(Address(me ^ 0x100), s)));
     }
     finals.push(Reply::Msg(Message::AckOperation(a_, Operation::ReceivePixels)));
+    for inner in [Message::ReportState(a_, State::PixelsReceived), Message::ReportState(a_, State::ConfigReceived), Message::ReportState(a_, State::PixelsFailed), Message::ReportState(a_, State::ConfigFailed)] {
+        finals.push(Reply::Msg(Message::Unknown(Frame::from(inner))));
+    }
+    finals.push(Reply::Msg(Message::Unknown(Frame::new(a_, MsgType(4), Data::try_new(vec![0x0E]).unwrap()))));
+    finals.push(Reply::Msg(Message::Unknown(Frame::new(a_, MsgType(4), Data::try_new(vec![0x03, 0x00]).unwrap()))));
     finals.push(Reply::Msg(Message::QueryState(a_)));
     finals.push(Reply::None);
     finals.push(Reply::BusError);
@@ -654,8 +687,63 @@ pub fn record_c10(a: &Args) -> usize {
     out.finish()
 }
 
+/// Very long transfers for the C11 monitor: the (SendData, no reply) exchanges are left out of the recording (their number is
+/// noted in the call event); everything C11 speaks about -- requests, counts, queries, their replies, the outcome -- is kept.
+pub fn record_c11_heavy(a: &Args, out: &mut TraceOut) -> Value {
+    let thorough = a.tier == "thorough";
+    let mut runs = 0usize;
+    let me = 0x0104u16;
+    let a_ = Address(me);
+    // (pages of 65 536 bytes, consecutive 'failed' reports before 'received')
+    let mut cases: Vec<(usize, u32)> = vec![(6, 5), (6, 2), (1, 3)];
+    if thorough {
+        cases.extend_from_slice(&[(16, 4), (17, 3)]);
+    }
+    for (npages, failures) in cases {
+        out.balance();
+        let pages: Vec<Page<'static>> = (0..npages).map(|i| Page::new(PageId(i as u8), 65532, 1)).collect();
+        let mut fails_left = failures;
+        let bus = Rc::new(RefCell::new(ScriptedBus {
+            next: Box::new(move |n, m| {
+                if n > 2_000_000 {
+                    return Some(Reply::BusError); // runaway guard
+                }
+                Some(match m {
+                    Message::RequestOperation(_, op) => Reply::Msg(Message::AckOperation(a_, *op)),
+                    Message::QueryState(_) => {
+                        if fails_left > 0 {
+                            fails_left -= 1;
+                            Reply::Msg(Message::ReportState(a_, State::PixelsFailed))
+                        } else {
+                            Reply::Msg(Message::ReportState(a_, State::PixelsReceived))
+                        }
+                    }
+                    _ => Reply::None,
+                })
+            }),
+            log: vec![],
+            exhausted: false,
+        }));
+        let typ = ALL_TYPES[(npages + failures as usize) % 11];
+        let sign = Sign::new(bus.clone(), a_, typ);
+        let outc = run_call(&sign, "send_pages", &pages);
+        let b = bus.borrow();
+        let kept: Vec<(Message<'static>, Reply)> = b.log.iter().filter(|(m, r)| !(matches!(m, Message::SendData(_, _)) && matches!(r, Reply::None))).map(|(m, r)| (m.clone(), reply_from(&reply_json(r)))).collect();
+        let mut ev = call_event("send_pages", me, typ, &[]);
+        ev["elided_data_exchanges"] = json!(b.log.len() - kept.len());
+        out.emit(ev);
+        for (m, r) in &kept {
+            out.emit(json!({"e": "x", "m": j::msg(m), "r": reply_json(r)}));
+        }
+        out.emit(json!({"e": "ret", "out": outc}));
+        runs += 1;
+    }
+    json!({"heavy_runs": runs})
+}
+
 pub fn record_c11(a: &Args) -> usize {
     let mut out = TraceOut::new(&a.out, "C11", a.shards);
+    let _ = record_c11_heavy(a, &mut out);
     let adv = record_adversarial(a, &mut out, 0xC11, if a.tier == "thorough" { 40_000 } else { 2_000 });
     let d = record_directed_ctl(a, &mut out, false);
     let c = record_conclusions(a, &mut out);
